@@ -324,7 +324,10 @@ fn run_sweep<T: Fl>(c: &SCase, lx: &mut Local) {
             T::of(scale
                 * match c.fill {
                     0 => ((i * 7919) % 1009) as f64 * 0.37 - 100.0,
-                    1 => 1e3 + (i % 17) as f64 * 0.1 + if i == 0 { 50.0 } else { 0.0 },
+                    // the first element (zero weight below) lies very far from the bulk
+                    1 => 1e3 + (i % 17) as f64 * 0.1 + if i == 0 { 1e9 } else { 0.0 },
+                    // small in absolute scale AND ill-conditioned (mean 0.1, spread 1e-5)
+                    5 => (1e3 + (i % 17) as f64 * 0.1 + if i % 5 == 0 { 0.35 } else { 0.0 }) * 1e-4,
                     _ => ((i * i + 3 * i) % 11) as f64 - 4.0 + if i % 7 == 0 { 0.5 } else { 0.0 },
                 })
         })
@@ -460,10 +463,10 @@ fn main() {
         },
     );
     let smax = rep.cfg.pick(1100, 4100);
-    let scases = nsmc::patterns::sizes(40, smax).into_iter().filter(|&n| n >= 1).flat_map(|n| (0..5u8).flat_map(move |fill| (0..2u8).map(move |ty| SCase { n, fill, ty })));
+    let scases = nsmc::patterns::sizes(40, smax).into_iter().filter(|&n| n >= 1).flat_map(|n| (0..6u8).flat_map(move |fill| (0..2u8).map(move |ty| SCase { n, fill, ty })));
     rep.run_sub(
         "size-sweep-and-scales",
-        &format!("every length 1..=40 and block / unrolling threshold neighbourhoods up to {} x 5 fills (scattered, 1e3 offset with an outlier first, small integers with ties, the same at scale 1e-60 (f32: 1e-8) and 1e60 (f32: 1e7)) x f64/f32: central_moments(4), skewness, kurtosis, weighted_var (zero weights at the first and every 9th position; ddof 0, 1), weighted_var_axis over lanes of that length", smax),
+        &format!("every length 1..=40 and block / unrolling threshold neighbourhoods up to {} x 6 fills (scattered, 1e3 offset with a zero-weight first element 1e9 away, small AND ill-conditioned data (mean 0.1, spread 1e-5), small integers with ties, the same at scale 1e-60 (f32: 1e-8) and 1e60 (f32: 1e7)) x f64/f32: central_moments(4), skewness, kurtosis, weighted_var (zero weights at the first and every 9th position; ddof 0, 1), weighted_var_axis over lanes of that length", smax),
         scases,
         |c, lx| {
             lx.nontrivial(c.n >= 2);
